@@ -272,7 +272,9 @@ def pool():
             '', 'a', 'A', 'ab', 'b', '1', '10', '2', '-1', ' ', 'TRUE', 'é', 'z', 'abc', 'abd',
             True, False, None,
             D(1900, 1, 1), D(1900, 1, 2), D(1900, 2, 28), D(1900, 3, 1), D(2020, 1, 15), D(2020, 1, 15, 12, 0), D(2020, 1, 16),
-            D(1900, 1, 1, 12, 0)]
+            D(1900, 1, 1, 12, 0),
+            # date-times before the base day (host-supplied: DATE() cannot build them): their serials are negative numbers
+            D(1899, 6, 1, 12, 0), D(1850, 1, 1), D(1899, 12, 31, 18, 0)]
 
 
 def fixed_number_clusters():
@@ -626,6 +628,13 @@ def operand_value(o):
     if 'e' not in o:
         return var_value(o)
     t = o['e']
+    # a plain literal denotes the number it spells (an integer exactly, a decimal as the nearest double), whatever the
+    # implementation makes of it; only a computation is taken at the value the implementation gives it
+    import re as _re
+    if _re.fullmatch(r'[0-9]+', t):
+        return int(t)
+    if _re.fullmatch(r'[0-9]+\.[0-9]+|\.[0-9]+', t):
+        return float(t)
     if t not in _opval:
         _opval[t] = parser().parse(t)
     rec = _opval[t]
